@@ -42,8 +42,10 @@ NEARMISS = [
     "hyx_anon_1", "X_hy_anon_1", "let_x_1", "let_x_2", "_let_x_1", "hy_let_x_1", "let-x-3",
     "exc_e_1", "exc_e_2", "_exc_e_1", "hy_exc_e_2", "local_macro__m", "_local_macro__m",
     "hy_local_macro__m", "gensym_g_1", "_gensym_g_1", "hy_gensym_g_1", "anon", "_anon", "let_", "_let_",
+    # digit-suffixed names: name + serial number of one temporary must never read like another's
+    "x", "x1", "x11", "x12", "x2", "x21", "v", "v1", "v12", "total", "total1", "total11", "anon_", "anon_11",
 ]
-BENIGN = [f"u{i}" for i in range(64)]
+BENIGN = [f"u{i}" for i in range(160)]
 KEYWORDS = ["if", "class", "from", "def", "else", "while", "for", "in", "is", "not", "and", "or", "lambda",
             "pass", "return", "try", "with", "yield", "del", "global", "nonlocal", "import", "as", "assert",
             "break", "continue", "elif", "except", "finally", "raise", "async", "await"]
@@ -833,6 +835,80 @@ def shadow_program(rng, depth=None):
     c0 = next(consts)
     text = f"(let [{N} {c0}] {level(1, c0)})"
     return text, exp
+
+
+def digit_program(rng):
+    """Closed-form program with MANY simultaneously live let bindings (10-45 temporaries in one
+    compilation unit) among which two user names are chosen so that `name + serial number`
+    of one reads like the other's: A = base+X+d at serial c1 and B = base+X at serial c2 with
+    str(c2) == d + str(c1) (e.g. total1 as no. 1 and total as no. 11; v12 as no. 3, v1 as
+    no. 23). Variants: nested single lets, multi-binding lets, except-bound pair; in a function
+    or at module level. Returns (template, names, expected events)."""
+    while True:
+        c2 = rng.randint(10, 42)
+        s2 = str(c2)
+        k = rng.randint(1, len(s2) - 1)
+        if s2[k] != "0":
+            break
+    c1, d = int(s2[k:]), s2[:k]
+    base = rng.choice(["x", "v", "total", "anon_", "let_x_", "_anon", "exc_e_", "q-"]) + rng.choice(["", "", "1", "2", "12"])
+    A, B = base + d, base
+    shift = rng.choice([0, 0, 0, 0, -1, 1])          # robustness against a different numbering origin
+    c1, c2 = c1 + shift, c2 + shift
+    if c1 < 1:
+        c1, c2 = c1 + 1, c2 + 1
+    variant = rng.choice(["nest", "nest", "multi", "groups", "except"])
+    if variant == "except" and not (c1 >= 2 and c2 >= c1 + 2):
+        variant = "nest"
+    total = c2 + rng.randint(0, 4)
+    names, vals = [], []
+
+    def filler(i):
+        return f"w{i}{rng.choice('abz')}"
+    in_fn = rng.random() < 0.7
+    if variant == "except":
+        # serials: fillers 1..c1-2, outer try c1-1, outer handler name c1, fillers, inner try c2-1, inner name c2
+        f1 = [filler(i) for i in range(c1 - 2)]
+        f2 = [filler(100 + i) for i in range(c2 - c1 - 2)]
+        names = f1 + [A] + f2 + [B]
+        vals = [100 + i for i in range(len(names))]
+        idx = {n: i for i, n in enumerate(names)}
+        va, vb = vals[idx[A]], vals[idx[B]]
+        logl = " ".join(ph(idx[n]) if n not in (A, B) else f"(get {ph(idx[n])}.args 0)" for n in names)
+        inner = (f"(try (raise (EB {vb})) (except [{ph(idx[B])} EB] (L 1 [{logl}])))")
+        def wrap(fill, inside):       # deep nesting of lets compiles very slowly: group the fillers
+            chunks = [fill[i:i + 7] for i in range(0, len(fill), 7)]
+            for ch in reversed(chunks):
+                inside = "(let [" + " ".join(f"{ph(idx[n])} {vals[idx[n]]}" for n in ch) + f"] {inside})"
+            return inside
+        inner = wrap(f2, inner)
+        body = wrap(f1, f"(try (raise (EA {va})) (except [{ph(idx[A])} EA] {inner}))")
+    else:
+        for i in range(1, total + 1):
+            names.append(A if i == c1 else B if i == c2 else filler(i))
+        vals = [100 + i for i in range(len(names))]
+        logl = " ".join(ph(i) for i in range(len(names)))
+        body = f"(L 1 [{logl}])"
+        if variant == "nest" and len(names) > 14:
+            variant = "groups"
+        if variant == "multi":
+            body = "(let [" + " ".join(f"{ph(i)} {vals[i]}" for i in range(len(names))) + f"] {body})"
+        elif variant == "groups":
+            cuts, i = [], 0
+            while i < len(names):
+                j = min(len(names), i + rng.randint(3, 8))
+                cuts.append((i, j))
+                i = j
+            for i, j in reversed(cuts):
+                body = "(let [" + " ".join(f"{ph(t)} {vals[t]}" for t in range(i, j)) + f"] {body})"
+        else:
+            for i in reversed(range(len(names))):
+                body = f"(let [{ph(i)} {vals[i]}] {body})"
+    fn = ph(len(names))
+    text = f"(defn {fn} [] {body})\n({fn})" if in_fn else body
+    from hv.common import token
+    exp = [[1, token(list(vals))]]
+    return text, names + ["digits-fn"], exp, variant
 
 
 # ---------------------------------------------------------------------------
